@@ -80,6 +80,21 @@ def arrays_for(p, rng, quick):
         for i in idx:
             a[i] = rng.choice([1, 1, 2, 3])
         out.append(("near_thr_%g" % (lc_target / thr), a))
+    # linear counting just above the threshold while the raw estimate is still below the first table
+    # point (np.interp clamps to bias[0]): V zero registers, every other register at rank 1
+    vthr = int(m / math.exp(thr / m))
+    for dv in (0, 1, 2, 5, 10):
+        V = vthr - dv
+        if 1 <= V < m:
+            a = z(); a[V:] = 1
+            out.append(("clamp_lo_%d" % dv, a))
+            a = z(); a[V:] = 1; a[V: V + (m - V) // 3] = 2
+            out.append(("clamp_mix_%d" % dv, a))
+    # raw estimate beyond the last table point with zero registers present (clamps to bias[-1])
+    a = z(); a[1:] = 6
+    out.append(("one_zero_high", a))
+    a = z(); a[3:] = 5
+    out.append(("three_zero_high", a))
     return out
 
 
